@@ -751,6 +751,70 @@ func runCase(k int, f *hx.Flags, o *hx.Out) {
 	}
 
 	// ---- blocks
+	// A transaction that is on no chain at all: whatever carries it must be rejected and leave nothing behind.
+	users0 := c.src.net.Single(1)
+	var foreignTxs []*transaction.Transaction
+	mkForeign := func() *transaction.Transaction {
+		t := c.src.tx(users0, callScript(c.src.kvH, "put", []byte{0xde, 0xad, byte(len(foreignTxs))}, []byte{1}))
+		foreignTxs = append(foreignTxs, t)
+		return t
+	}
+	firstWindow := uint32(0)
+	if c.mod.NeedBlocks() {
+		firstWindow = c.mod.BlockHeight() + 1
+	}
+	// tamper returns the block's genuine header with another transaction list, the kind of change and the
+	// list as positions in the real list (f<k> = a transaction that is on no chain).
+	tamper := func(b *block.Block) (*block.Block, string, string) {
+		txs := b.Transactions
+		var kinds []string
+		if len(txs) > 0 {
+			kinds = append(kinds, "strip", "drop1", "dup", "dup-last")
+		}
+		if len(txs) > 1 {
+			kinds = append(kinds, "reorder")
+		}
+		kinds = append(kinds, "foreign-add", "foreign-only")
+		kind := kinds[c.r.Intn(len(kinds))]
+		ids := make([]int, len(txs))
+		for i := range ids {
+			ids[i] = i
+		}
+		switch kind {
+		case "strip":
+			ids = nil
+		case "drop1":
+			i := c.r.Intn(len(ids))
+			ids = append(ids[:i:i], ids[i+1:]...)
+		case "dup":
+			j := c.r.Intn(len(txs))
+			if j == len(txs)-1 {
+				kind = "dup-last"
+			}
+			ids = append(ids, j)
+		case "dup-last":
+			ids = append(ids, len(txs)-1)
+		case "reorder":
+			i := c.r.Intn(len(ids) - 1)
+			ids[i], ids[i+1] = ids[i+1], ids[i]
+		case "foreign-add":
+			ids = append(ids, -1)
+		case "foreign-only":
+			ids = []int{-1}
+		}
+		var nt []*transaction.Transaction
+		var desc []string
+		for _, i := range ids {
+			if i < 0 {
+				desc = append(desc, fmt.Sprintf("f%d", len(foreignTxs)))
+				nt = append(nt, mkForeign())
+			} else {
+				desc = append(desc, fmt.Sprint(i))
+				nt = append(nt, txs[i])
+			}
+		}
+		return &block.Block{Header: b.Header, Transactions: nt}, kind, strings.TrimSpace(fmt.Sprintf("%d %s", len(txs), strings.Join(desc, " ")))
+	}
 	for c.mod.NeedBlocks() {
 		bh := c.mod.BlockHeight()
 		idx := bh + 1
@@ -771,6 +835,29 @@ func runCase(k int, f *hx.Flags, o *hx.Out) {
 		b, err := src.GetBlock(src.GetHeaderHash(idx))
 		if err != nil {
 			panic(err)
+		}
+		// wrong data first: the genuine header with a transaction list that is not the block's
+		if c.r.Chance(1, 2) {
+			tb, kind, body := tamper(b)
+			res, err := safeErr(func() error { return c.mod.AddBlock(tb) })
+			var bhs string
+			if c.mod.NeedBlocks() {
+				bhs = fmt.Sprintf(" bh=%d", c.mod.BlockHeight())
+			}
+			c.line(fmt.Sprintf("badblock %d %s", idx, body), res+bhs)
+			o.Count("block:tampered-" + kind)
+			if res == "panic" {
+				c.fail("panic", "AddBlock(tampered %s %d): %v", kind, idx, err)
+				return
+			}
+			if err == nil {
+				c.fail("tampered-block-accepted-"+kind, "AddBlock accepted block %d with the genuine header and a %s transaction list (%d txs instead of %d) at module height %d",
+					idx, kind, len(tb.Transactions), len(b.Transactions), bh)
+				return
+			}
+			if !c.mod.NeedBlocks() {
+				break
+			}
 		}
 		res, err := safeErr(func() error { return c.mod.AddBlock(b) })
 		var bhs string
@@ -820,6 +907,43 @@ func runCase(k int, f *hx.Flags, o *hx.Out) {
 		return
 	}
 	o.Add("state:items", len(want))
+	// every block of the window is the source's block, with its transactions; rejected data left nothing
+	if firstWindow > 0 {
+		for i := firstWindow; i <= c.P; i++ {
+			want, err := src.GetBlock(src.GetHeaderHash(i))
+			if err != nil {
+				panic(err)
+			}
+			got, err := sb.GetBlock(sb.GetHeaderHash(i))
+			if err != nil {
+				c.fail("block-mismatch", "synced node has no block %d of the window %d..%d: %v (source block has %d txs)", i, firstWindow, c.P, err, len(want.Transactions))
+				return
+			}
+			if !got.Hash().Equals(want.Hash()) || len(got.Transactions) != len(want.Transactions) {
+				c.fail("block-mismatch", "block %d: synced %s with %d txs, source %s with %d txs", i, got.Hash().StringLE(), len(got.Transactions), want.Hash().StringLE(), len(want.Transactions))
+				return
+			}
+			for j, tx := range want.Transactions {
+				if !got.Transactions[j].Hash().Equals(tx.Hash()) {
+					c.fail("block-mismatch", "block %d tx %d differs", i, j)
+					return
+				}
+				gtx, h, err := sb.GetTransaction(tx.Hash())
+				if err != nil || h != i || !gtx.Hash().Equals(tx.Hash()) {
+					c.fail("block-mismatch", "GetTransaction(%s) of block %d on the synced node: height %d err %v", tx.Hash().StringLE(), i, h, err)
+					return
+				}
+				o.Count("window:tx-checked")
+			}
+			o.Count("window:block-checked")
+		}
+		for _, ft := range foreignTxs {
+			if _, _, err := sb.GetTransaction(ft.Hash()); err == nil {
+				c.fail("rejected-data-left-behind", "transaction %s came only inside a rejected block but is known to the synced node", ft.Hash().StringLE())
+				return
+			}
+		}
+	}
 	// lockstep after the sync point
 	if c.r.Chance(1, 5) {
 		if err := c.restartNode(); err != nil {
